@@ -122,6 +122,10 @@ fn check_i(sa: bool, a: &[u64], sb: bool, b: &[u64]) -> Verdict {
             Some(r) => ctx(eq_bi(&r, &sum), &format!("BigInt {} checked_add", tag))?,
             None => return Err(format!("BigInt {} checked_add returned None", tag)),
         }
+        match must_return("CheckedAdd::checked_add", || CheckedAdd::checked_add(p, q))? {
+            Some(r) => ctx(eq_bi(&r, &sum), &format!("BigInt {} <BigInt as CheckedAdd>::checked_add", tag))?,
+            None => return Err(format!("BigInt {} <BigInt as CheckedAdd>::checked_add returned None", tag)),
+        }
     }
     for (p, q, rp, rq, tag) in [(&x, &y, &ra, &rb, "a-b"), (&y, &x, &rb, &ra, "b-a")] {
         let d = rp.sub(rq);
@@ -134,6 +138,10 @@ fn check_i(sa: bool, a: &[u64], sb: bool, b: &[u64]) -> Verdict {
         match must_return("checked_sub", || p.checked_sub(q))? {
             Some(r) => ctx(eq_bi(&r, &d), &format!("BigInt {} checked_sub", tag))?,
             None => return Err(format!("BigInt {} checked_sub returned None", tag)),
+        }
+        match must_return("CheckedSub::checked_sub", || CheckedSub::checked_sub(p, q))? {
+            Some(r) => ctx(eq_bi(&r, &d), &format!("BigInt {} <BigInt as CheckedSub>::checked_sub", tag))?,
+            None => return Err(format!("BigInt {} <BigInt as CheckedSub>::checked_sub returned None", tag)),
         }
     }
     eq_bi(&x, &ra).map_err(|e| format!("borrowed operand a changed: {}", e))?;
@@ -274,7 +282,7 @@ impl Property for C01 {
     fn budget(&self, tier: Tier) -> Budget {
         match tier {
             Tier::Quick => Budget { release: 1_200_000, dbg: 400_000, workers: 8 },
-            Tier::Thorough => Budget { release: 16_000_000, dbg: 4_000_000, workers: 16 },
+            Tier::Thorough => Budget { release: 64_000_000, dbg: 16_000_000, workers: 16 },
         }
     }
     fn probes(&self) -> Vec<Probe> {
